@@ -1,4 +1,5 @@
 import DadiVerif.Lemmas.FileValues
+import DadiVerif.Lemmas.FileRound17
 /-!
 # C14 — spectra survive file and pickle round trips with data, mask, folding and labels
 
@@ -23,7 +24,12 @@ Property theorems only (helper lemmas: `Lemmas/FileFormat.lean`, `Lemmas/FileRou
   `'%.{p}g' % x` and numpy's text parser is the explicit hypothesis structure `FmtContract` (Lemmas/FileValues.lean):
   parse (format p x) = round_p x, round_p idempotent, round_p = id for p ≥ 17, formatted entries are tokens.
   `C14_values_to_precision` / `C14_array_values_to_precision` prove the "same values to the written precision" clause FROM
-  that contract; the contract itself is validated numerically by the harness (`contract_check`), it is not proved.
+  that contract.  For the CONCRETE exact model of `'%.{p}g'` + `strtod` on rationals (`roundSig`, `roundBin`, `rndModel`,
+  Model/FileFormat.lean; the driver runs it, K compares it with the real chain) the contract's `exact17` and, for p ≥ 17, its
+  idempotence are PROVED (`C14_round_exact17`), as are idempotence of each rounding and identity on values with ≤ p digits
+  (`C14_round_idempotent`, `C14_round_fixed`); what remains assumed is `PrintfCorrect` (`C14_values_from_printf`): formatted
+  entries are tokens and `printf`/`strtod` round correctly — plus, only for the "a second round trip changes nothing" clause at
+  p = 16, idempotence of the composed rounding (validated numerically).
   gzip and the UTF-8 codec are transports outside the model; what is proved about them is that writer and reader choose
   the same transport and text mode for every file name (`C14_open_dispatch`, `C14_gzip_text_mode`).
 
@@ -868,6 +874,76 @@ theorem C14_array_values_to_precision {F : Type} {fmtS : Str → F → Str} {par
     have := fc.parse_row p vals
     rw [fc.exact_row p hp vals] at this
     exact this
+
+/-- **the concrete `round_p`: each rounding is idempotent.**  In the exact rational model of `'%.{p}g'` (`roundSig p`: nearest
+    decimal with p significant digits, ties to even) and of `strtod` (`roundBin`: nearest double, 53 bits, ties to even,
+    gradual underflow), rounding twice is rounding once — for every p ≥ 1 and every rational x; and the results have at most p
+    significant digits / are doubles. -/
+theorem C14_round_idempotent (p : Nat) (hp : 1 ≤ p) (x : Rat) :
+    roundSig p (roundSig p x) = roundSig p x ∧ roundBin (roundBin x) = roundBin x
+      ∧ DecimalDigits p (roundSig p x) ∧ IsDouble (roundBin x) ∧ IsDouble (rndModel p x) :=
+  ⟨roundSig_idem p hp x, roundBin_idem x, roundSig_digits p hp x, roundBin_isDouble x, rndModel_isDouble p x⟩
+
+/-- **the concrete `round_p` is the identity on what a file with p digits can hold**: a value with at most p significant
+    decimal digits is not changed by `roundSig p` (nor by any larger precision), a double is not changed by `roundBin`, and a
+    double with at most p significant decimal digits comes back from the file as itself. -/
+theorem C14_round_fixed (p q : Nat) (hpq : p ≤ q) (x : Rat) (hx : DecimalDigits p x) :
+    roundSig p x = x ∧ roundSig q x = x ∧ (IsDouble x → rndModel q x = x) :=
+  ⟨roundSig_fixed p x hx, roundSig_fixed q x (decimalDigits_mono p q hpq x hx),
+   fun hd => rndModel_fixed q x (decimalDigits_mono p q hpq x hx) hd⟩
+
+/-- non-vacuity: 0.5, 1234.5 and 2^-1074 · 3 (a denormal) are doubles; 1234.5 has 5 significant decimal digits -/
+example : DecimalDigits 5 (2469 / 2) ∧ IsDouble (2469 / 2) ∧ IsDouble (3 * (2 : Rat) ^ (-1074 : Int)) :=
+  ⟨⟨12345, -1, by norm_num, by norm_num, by intro m hm; cases hm⟩,
+   ⟨2469, -1, by norm_num, by norm_num, by intro m hm; cases hm; norm_num⟩,
+   ⟨3, -1074, by norm_num, by norm_num, by intro m hm; cases hm; norm_num⟩⟩
+
+/-- **17 significant digits identify a double** (the field `exact17` of the contract, PROVED for the concrete model): for
+    every p ≥ 17 and every finite double x — normal or denormal, either sign, zero — writing with `'%.{p}g'` and reading
+    with `strtod`, both correctly rounding, returns x; hence the composed rounding is idempotent for p ≥ 17. -/
+theorem C14_round_exact17 (p : Nat) (hp : 17 ≤ p) (x : Rat) (hx : IsDouble x) :
+    rndModel p x = x ∧ rndModel p (rndModel p x) = rndModel p x := by
+  have h := rndModel_exact17 p hp x hx
+  exact ⟨h, by rw [h, h]⟩
+
+/-- **same values to the written precision, from what is assumed of the C library only.**  If `printf('%.{p}g')` / `strtod`
+    produce tokens and round correctly (`PrintfCorrect`: parse (format p x) = `rndModel p x` — nothing else), then for every
+    spectrum of finite doubles and every requested precision p the file `to_file(precision=p)` writes reads back with the
+    same shape, mask (+ corners), folding and labels, entries equal to `rndModel p` of the values written — each within half
+    a unit of the p-th significant digit and itself a double — and EXACTLY the values written for p ≥ 17: no longer an
+    assumption but a consequence of `C14_round_exact17`. -/
+theorem C14_values_from_printf {fmtS : Str → Dbl → Str} {parse : Str → Option Dbl}
+    (hc : PrintfCorrect (fun p => fmtS (gFormat p)) parse) (p : Nat) (vals : List Dbl) (shape : List Nat) (mask : List Bool)
+    (folded : Bool) (popIds : Option (List Str)) (comments : List Str) (mc : Bool)
+    (hs : shape ≠ []) (hlen : vals.length = prodL shape) (hm : mask.length = vals.length)
+    (hl : ∀ l, popIds = some l → l.length = shape.length ∧ ∀ x ∈ l, QUOTE ∉ x ∧ Clean x)
+    (hcm : ∀ c ∈ comments, Clean c) (hnz : mc = true → vals ≠ []) :
+    ∃ g : Spec, fromFile mc (toFile comments shape folded popIds true (vals.map (fmtS (toFileFmt p))) mask)
+          = some (g, comments.map strip)
+      ∧ g.shape = shape ∧ g.folded = folded ∧ g.popIds = popIds
+      ∧ g.mask = (if mc then maskCorners mask else mask)
+      ∧ g.data.mapM parse = some (vals.map (rndD p))
+      ∧ (17 ≤ p → g.data.mapM parse = some vals) := by
+  have fc := hc.core
+  rw [(C14_precision_format p).1]
+  have hw : WellFormed { shape := shape, data := vals.map (fmtS (gFormat p)), mask := mask, folded := folded, popIds := popIds,
+                         extrapX := none } :=
+    { shape_ne := hs, data_len := by simpa using hlen, mask_len := by simpa using hm, toks := fc.toks p vals, labels := hl }
+  have hrt := C14_roundtrip { shape := shape, data := vals.map (fmtS (gFormat p)), mask := mask, folded := folded,
+                              popIds := popIds, extrapX := none } comments mc hw hcm (by simpa using hnz)
+  dsimp only at hrt
+  refine ⟨_, hrt, rfl, rfl, rfl, rfl, fc.parse_row p vals, ?_⟩
+  intro hp
+  have := fc.parse_row p vals
+  have he : vals.map (rndD p) = vals := by
+    induction vals with
+    | nil => rfl
+    | cons x xs ih => simp [rndD_exact17 p hp x, List.map_congr_left (fun y _ => rndD_exact17 p hp y)]
+  rw [he] at this
+  exact this
+
+/-- the hypothesis `PrintfCorrect` is satisfiable -/
+example : ∃ (fmt : Nat → Dbl → Str) (parse : Str → Option Dbl), PrintfCorrect fmt parse := printfCorrect_exists
 
 /-- **pickle.**  The tuple `Spectrum_pickler` returns, fed to `Spectrum_unpickler` (both generated from the source; the
     constructor call bound — positional arguments by POSITION, keywords by name, the rest from the defaults — against the
